@@ -169,10 +169,12 @@ struct Run : ContBase {
         bool newmem = s.boolean();
         std::vector<size_t> hits = m.lookup(&k);
         Buf *kb = Buf::cstr(k);
+        bool nocnt = s.chance(1, 6);                       // "numobjs ... (can be NULL)": the array is terminated by a type-0 element
         size_t n = 999999;
         errno = poison;
-        qlisttbl_data_t *objs = qlisttbl_getmulti(t, kb->c(), newmem, &n);
+        qlisttbl_data_t *objs = qlisttbl_getmulti(t, kb->c(), newmem, nocnt ? nullptr : &n);
         int e = errno;
+        if (nocnt) { n = hits.size(); c.tag("null_count_outparam"); }
         delete kb;
         c.op("getmulti(%s,newmem=%d) [%zu match(es)]", hexs(k, 10).c_str(), (int)newmem, hits.size());
         struct G { qlisttbl_data_t *o; ~G() { if (o) qlisttbl_freemulti(o); } } g{objs};
